@@ -1,8 +1,8 @@
 (* Property C12 — instance startup profile. Statements only; proofs live in Proofs/StartLoopProofs.v. *)
 From Coq Require Import List ZArith Bool Arith Lia.
 From Coq Require Import Permutation.
-From PV Require Import Model.StartLoop Model.Instance Model.StartAsync Model.StartWaiter Model.StartFire Model.StartProfile Model.StartPerInst.
-From PV Require Import Proofs.StartLoopProofs Proofs.StartAsyncProofs Proofs.StartWaiterProofs Proofs.StartFireProofs Proofs.StartProfileProofs Proofs.StartPerInstProofs.
+From PV Require Import Model.StartLoop Model.Instance Model.StartAsync Model.StartWaiter Model.StartFire Model.StartProfile Model.StartPerInst Model.StartCompLeft Model.StartOverflow.
+From PV Require Import Proofs.StartLoopProofs Proofs.StartAsyncProofs Proofs.StartWaiterProofs Proofs.StartFireProofs Proofs.StartProfileProofs Proofs.StartPerInstProofs Proofs.StartCompLeftProofs Proofs.StartOverflowProofs.
 From PV Require Model.Waiter.
 Import ListNotations.
 Local Open Scope Z_scope.
@@ -396,3 +396,91 @@ Example C12_perinst_decoded_once_differs :
   exists s, pirun DecodedOnce [PINext 0; PINext 0; PINext 0; PINext 1]%nat (piinit 2) = Some s
             /\ In 1%nat (pleft s) /\ shots_of 1 s = 0%nat /\ shots_of 0 s = 2%nat.
 Proof. eexists. split; [vm_compute; reflexivity|]. vm_compute. split; [left; reflexivity|split; reflexivity]. Qed.
+
+(* ---------------------------------------------------------------------------------------------------- *)
+(* Round 8.  "The shared RPS profile finished" is one of the listed reasons for cutting instance start, and
+   "its RPS profile is exhausted" the reason for an instance to stop firing.  The engine decides both by
+   Left() == 0 of the profile.  For a composite profile (list form / type composite) Left() is computed from a
+   table built by NewComposite (Model/StartCompLeft.v follows composite.go).  For EVERY list of parts - each
+   with a known number of tokens left or unlimited - and in every state in which the parts behind the current
+   one have not been touched (the only states Next produces, C12_composite_left_trace): Left() is unknown (-1)
+   exactly while an unlimited part is ahead, else the sum of what the parts have left ... *)
+Theorem C12_composite_left : forall started ps,
+  forallb untouched (tl ps) = true -> comp_left Sticky started ps = left_spec ps.
+Proof. exact comp_left_is_spec. Qed.
+Print Assumptions C12_composite_left.
+
+(* ... so a composite profile reports its end only when every remaining part is known and empty ... *)
+Theorem C12_composite_left_zero : forall started ps,
+  forallb untouched (tl ps) = true -> comp_left Sticky started ps = 0 -> Forall (fun p => cur_left p = 0) ps.
+Proof. exact comp_left_zero. Qed.
+Print Assumptions C12_composite_left_zero.
+
+(* ... never while an unlimited part is still ahead, however few tokens the parts in front of it have ... *)
+Theorem C12_composite_left_unknown : forall started ps,
+  forallb untouched (tl ps) = true -> In (CUnl false) ps -> comp_left Sticky started ps = -1.
+Proof. exact comp_left_unknown. Qed.
+Print Assumptions C12_composite_left_unknown.
+
+(* ... along any number of Next calls from a freshly built composite (or any state as above) *)
+Theorem C12_composite_left_trace : forall draws ps,
+  forallb untouched (tl ps) = true -> cleft_trace Sticky draws ps = cleft_spec_trace draws ps.
+Proof. exact cleft_trace_is_spec. Qed.
+Print Assumptions C12_composite_left_trace.
+
+(* non-vacuity: three tokens, one token, then unlimited: unknown all the way; a finite list counts down *)
+Example C12_composite_left_run :
+  cleft_trace Sticky 6 [CKnown 3; CKnown 1; CUnl false] = [-1; -1; -1; -1; -1; -1; -1]
+  /\ cleft_trace Sticky 6 [CKnown 2; CKnown 0; CKnown 3] = [5; 4; 3; 2; 1; 0].
+Proof. split; vm_compute; reflexivity. Qed.
+
+(* sensitivity: when the backward pass adds every known part to the accumulator (no sticky `unknown` flag),
+   exactly one token in front of an unlimited part brings the accumulator from -1 to 0: with the first part
+   drained the profile reports its end although a token and an unlimited part are ahead - the conclusions of
+   C12_composite_left_zero / _unknown are false *)
+Example C12_composite_left_not_sticky_differs :
+  let ps := [CKnown 0; CKnown 1; CUnl false] in
+  forallb untouched (tl ps) = true
+  /\ comp_left CurrentKnown true ps = 0 /\ comp_left Sticky true ps = -1
+  /\ ~ Forall (fun p => cur_left p = 0) ps.
+Proof.
+  cbv zeta. split; [reflexivity|]. split; [vm_compute; reflexivity|]. split; [vm_compute; reflexivity|].
+  intros H. inversion H as [|? ? _ H1]; subst. inversion H1 as [|? ? H2 _]; subst. vm_compute in H2. discriminate.
+Qed.
+
+(* Round 8.  The pool option discard_overflow (on by default in the CLI) is about shots.  The start loop does
+   not look at it (Model/StartOverflow.v, rule NeverSkip): for either setting, every trace - however late the
+   loop is, e.g. a first instance that takes longer than MaxOverdueDuration to create - ends with all tokens
+   turned into instances unless one of the listed causes cut it *)
+Theorem C12_overflow_all_tokens : forall discard toks l t0 s e,
+  orun NeverSkip discard l (sinit toks t0) = Some s -> spc s = LEnd e ->
+  (e = EExhausted -> length (started s) = length toks)
+  /\ ((length (started s) < length toks)%nat ->
+      (exists c, e = ECancelled c /\ cancelled s = Some c /\ In (SCancel c) l)
+      \/ (e = EFirstCreateFailed /\ started s = [])).
+Proof. exact overflow_all_tokens. Qed.
+Print Assumptions C12_overflow_all_tokens.
+
+Theorem C12_overflow_ids : forall discard toks l t0 s,
+  orun NeverSkip discard l (sinit toks t0) = Some s ->
+  map fst (creations s) = seq 0 (length (creations s)) /\ NoDup (map fst (creations s)).
+Proof. exact overflow_ids. Qed.
+Print Assumptions C12_overflow_ids.
+
+Definition late_first_trace : list saction :=
+  let sl := SLoop false false in
+  [sl; sl; sl; sl; STick 2100000000; sl; sl; sl; sl; sl; sl; sl; sl; sl; sl].
+
+(* non-vacuity: three tokens at 0, the first instance takes 2.1 s to create, discard_overflow on: three instances *)
+Example C12_overflow_late_tokens_run :
+  exists s, orun NeverSkip true late_first_trace (sinit [0; 0; 0] 0) = Some s
+            /\ spc s = LEnd EExhausted /\ map fst (creations s) = [0; 1; 2]%nat.
+Proof. eexists. split; [vm_compute; reflexivity|]. split; reflexivity. Qed.
+
+(* sensitivity: when the loop drops a startup token that is MaxOverdueDuration late (as an instance drops an
+   overdue shot), the same run ends with the profile exhausted, nothing cancelled and ONE instance for three
+   tokens - the conclusion of C12_overflow_all_tokens is false *)
+Example C12_overflow_skip_differs :
+  exists s, orun SkipOverdue true late_first_trace (sinit [0; 0; 0] 0) = Some s
+            /\ spc s = LEnd EExhausted /\ cancelled s = None /\ length (started s) = 1%nat.
+Proof. eexists. split; [vm_compute; reflexivity|]. repeat split; reflexivity. Qed.
